@@ -13,6 +13,8 @@ path over an abstract database:
     recorded as `deferred-trigger` and must be handled through the trigger's contract by the property module;
   * `SELECT .. INTO` with no matching row leaves the variables unchanged; aggregates are fresh values recorded in `aggregates`.
 What extraction drops: locking clauses, index hints, ORDER BY without LIMIT, DELIMITER, comments (counted by sqlparse).
+An inner-joined derived table `(SELECT .. [ORDER BY ..] LIMIT n)` (literal n <= 4) is an arbitrary n-subset of the plain
+SELECT's rows (Exec.limit_subset): the ORDER BY is over-approximated away.  Every other LIMIT raises Undecided.
 Transaction isolation: each procedure call is atomic (serialisable) - an assumption listed by every SQL property.
 Anything outside the subset raises core.Undecided (never skipped silently).
 """
@@ -358,6 +360,7 @@ class Exec:
         # row; property modules turn `scalar_subquery_rows` into at-most-one-row obligations (see contracts/C07.py).
         self.multi_row_joins: List[Dict[str, Any]] = []
         self.scalar_subquery_rows: List[Dict[str, Any]] = []
+        self.limit_subsets: List[Dict[str, Any]] = []  # derived tables with LIMIT modelled as an arbitrary n-subset
 
     # ---- entry points
     def new_state(self) -> St:
@@ -852,10 +855,15 @@ class Exec:
                 limit_one = (sub.limit is not None and kind == 'LEFT' and not sub.group_by and not sub.having and getattr(sub, 'offset', None) is None
                              and isinstance(sub.limit, A.Lit) and sub.limit.value == 1 and sub.limit.kind == 'int'
                              and all(isinstance(c_, A.Lit) and c_.value is True for c_ in on_conj))
-                if sub.group_by or sub.having or (sub.limit is not None and not limit_one):
+                if sub.group_by or sub.having or (sub.limit is not None and not limit_one and (kind == 'LEFT' or getattr(sub, 'offset', None) is not None)):
                     raise Undecided('derived table %s is not a plain SELECT' % item.alias)
                 sc0 = Scope(st, aliases, outer)
                 in_aliases, in_cond, in_kv = self.bind_from(sub.from_, sub.where, sc0, st)
+                if sub.limit is not None and not limit_one:
+                    # (wave 4, C06) inner-joined derived table with [ORDER BY ..] LIMIT n: its rows are SOME subset of the
+                    # rows of the plain SELECT - all of them, or n distinct ones (the ORDER BY only narrows which n: ignoring
+                    # it over-approximates, so whatever is proved holds for the real choice)
+                    in_cond = z3.And(in_cond, self.limit_subset(sub, item.alias, in_cond, in_kv, st))
                 sc_in = Scope(st, in_aliases, sc0)
                 computed = {}
                 for c in sub.columns:
@@ -898,6 +906,31 @@ class Exec:
         conds.extend(truthy(self.ev(c, sc)) for c in where_conj)
         conds.extend(truthy(self.ev(c, sc)) for c in deferred_on)
         return aliases, z3.And(*conds) if conds else z3.BoolVal(True), keyvars
+
+    def limit_subset(self, sub, alias, in_cond, in_kv, st: St):
+        """`(SELECT .. WHERE c [ORDER BY ..] LIMIT n) AS alias`: returns chosen(in_kv), the membership of a row of the plain
+        SELECT (identified by its free key variables in_kv, selected by in_cond) in the limited result.  Encoding, for a
+        literal 1 <= n <= 4:  chosen(k) = all or k = pick_1 or .. or k = pick_n  over fresh constants, with the path fact
+        `not all => the picks are n pairwise distinct rows satisfying c`.  When fewer than n rows satisfy c no such picks
+        exist, which forces `all` (LIMIT is then no restriction); when more do, `all` is a spurious extra behaviour and the
+        picks range over every n-subset, a superset of the subsets an ORDER BY allows.  Recorded in self.limit_subsets."""
+        lim = sub.limit
+        if not (isinstance(lim, A.Lit) and lim.kind == 'int' and isinstance(lim.value, int) and not isinstance(lim.value, bool)):
+            raise Undecided('derived table %s: LIMIT is not an integer literal' % alias)
+        n = lim.value
+        if not in_kv:
+            # at most one row can match: LIMIT n >= 1 does not restrict, LIMIT 0 empties the table
+            return z3.BoolVal(n >= 1)
+        if n < 1 or n > 4:
+            raise Undecided('derived table %s: LIMIT %d outside the modelled range 1..4' % (alias, n))
+        all_ = z3.Bool(fresh('limit_all_%s' % alias))
+        picks = [[z3.Const(fresh('limit_pick%d_%s' % (i, alias)), k.sort()) for k in in_kv] for i in range(n)]
+        same = lambda a, b: z3.And(*[x == y for x, y in zip(a, b)])  # noqa: E731
+        facts = [z3.substitute(in_cond, *zip(in_kv, pk)) for pk in picks]
+        facts += [z3.Not(same(picks[i], picks[j])) for i in range(n) for j in range(i + 1, n)]
+        st.pc.append(z3.Or(all_, z3.And(*facts)))
+        self.limit_subsets.append({'alias': alias, 'limit': n, 'line': getattr(sub, 'line', None), 'order_by_ignored': bool(sub.order_by), 'all': all_, 'picks': picks})
+        return z3.Or(all_, *[same(in_kv, pk) for pk in picks])
 
     def pin_key(self, tab: Tab, alias: str, conj: List[Any], scope: Scope, derived_alias=None, derived=None):
         """find, for every primary-key column of `tab`, a conjunct `alias.col = e` with e evaluable in `scope`;
